@@ -53,6 +53,21 @@ impl UserTxLocked {
     }
 }
 
+/// Verification hook: read-only view of the flags and waker registrations.
+#[cfg(librqbit_utp_verif)]
+impl UserTxLocked {
+    /// (vsock_closed, writer_dropped, writer_shutdown, dispatcher_waker registered, writer_waker registered)
+    pub fn verif_flags(&self) -> (bool, bool, bool, bool, bool) {
+        (
+            self.vsock_closed,
+            self.writer_dropped,
+            self.writer_shutdown,
+            self.dispatcher_waker.is_some(),
+            self.writer_waker.is_some(),
+        )
+    }
+}
+
 /// The shared data between dispatcher and UtpStreamWriteHalf.
 pub struct UserTx {
     pub locked: RwLock<UserTxLocked>,
